@@ -114,7 +114,7 @@ class KeywordArgumentFilter(BaseBlockFilter):
         """Verify the block is inside a function call, not standalone code."""
         try:
             tree = ast.parse(file_content)
-        except SyntaxError:
+        except (SyntaxError, RecursionError, MemoryError):
             return False
 
         # Find if any Call node contains the block
